@@ -25,21 +25,24 @@ func (a Addr) String() string  { return a.S }
 
 // half is one direction of a connection: bytes written by one end, read by the other.
 type half struct {
-	mu       sync.Mutex
-	cond     sync.Cond
-	buf      []byte
-	wclosed  bool // writer closed: EOF once drained
-	rclosed  bool // reader closed
-	reset    bool
-	limit    int // bytes that may still be delivered to the reader; <0 unlimited
-	deadline time.Time
-	timer    *time.Timer
-	total    int // bytes ever written
-	read     int // bytes ever delivered
-	journal  []byte
-	keep     bool
-	gated    bool // bytes become readable only when released
-	released int  // bytes released beyond those already delivered
+	mu        sync.Mutex
+	cond      sync.Cond
+	buf       []byte
+	wclosed   bool // writer closed: EOF once drained
+	rclosed   bool // reader closed
+	reset     bool
+	limit     int // bytes that may still be delivered to the reader; <0 unlimited
+	deadline  time.Time
+	timer     *time.Timer
+	total     int // bytes ever written
+	read      int // bytes ever delivered
+	journal   []byte
+	keep      bool
+	gated     bool // bytes become readable only when released
+	released  int  // bytes released beyond those already delivered
+	window    int  // > 0: a writer blocks while this many bytes are waiting to be read (a full socket buffer)
+	wdeadline time.Time
+	wtimer    *time.Timer
 }
 
 func newHalf() *half {
@@ -120,6 +123,9 @@ func (c *Conn) Read(p []byte) (int, error) {
 				h.limit -= n
 			}
 			h.read += n
+			if h.window > 0 {
+				h.cond.Broadcast() // room for a blocked writer
+			}
 			return n, nil
 		}
 		if h.wclosed || h.limit == 0 {
@@ -151,13 +157,52 @@ func (c *Conn) Write(p []byte) (int, error) {
 	if h.wclosed {
 		return 0, io.ErrClosedPipe
 	}
-	h.buf = append(h.buf, p...)
-	h.total += len(p)
-	if h.keep {
-		h.journal = append(h.journal, p...)
+	if h.window <= 0 {
+		h.buf = append(h.buf, p...)
+		h.total += len(p)
+		if h.keep {
+			h.journal = append(h.journal, p...)
+		}
+		h.cond.Broadcast()
+		return len(p), nil
 	}
-	h.cond.Broadcast()
-	return len(p), nil
+	// bounded buffer: bytes go out as the reader makes room; the write deadline applies
+	n := 0
+	for n < len(p) {
+		if c.closed || h.wclosed {
+			return n, net.ErrClosed
+		}
+		if h.rclosed || h.reset {
+			return n, &net.OpError{Op: "write", Net: "tcp", Err: syscall.EPIPE}
+		}
+		if room := h.window - len(h.buf); room > 0 {
+			k := len(p) - n
+			if k > room {
+				k = room
+			}
+			h.buf = append(h.buf, p[n:n+k]...)
+			h.total += k
+			if h.keep {
+				h.journal = append(h.journal, p[n:n+k]...)
+			}
+			n += k
+			h.cond.Broadcast()
+			continue
+		}
+		if !h.wdeadline.IsZero() && !time.Now().Before(h.wdeadline) {
+			return n, &net.OpError{Op: "write", Net: "tcp", Err: ErrTimeout}
+		}
+		h.cond.Wait()
+	}
+	return n, nil
+}
+
+// SetWriteWindow bounds the bytes this end may have in flight (0 = unbounded, the default).
+func (c *Conn) SetWriteWindow(n int) {
+	c.out.mu.Lock()
+	c.out.window = n
+	c.out.cond.Broadcast()
+	c.out.mu.Unlock()
 }
 
 //go:norace
@@ -173,6 +218,9 @@ func (c *Conn) Close() error {
 		c.in.mu.Unlock()
 		c.out.mu.Lock()
 		c.out.wclosed = true
+		if c.out.wtimer != nil {
+			c.out.wtimer.Stop()
+		}
 		c.closed = true
 		c.out.cond.Broadcast()
 		c.out.mu.Unlock()
@@ -280,6 +328,7 @@ func (c *Conn) RemoteAddr() net.Addr { return c.remote }
 
 func (c *Conn) SetDeadline(t time.Time) error {
 	c.SetReadDeadline(t)
+	c.SetWriteDeadline(t)
 	return nil
 }
 
@@ -309,7 +358,31 @@ func (c *Conn) SetReadDeadline(t time.Time) error {
 	return nil
 }
 
-func (c *Conn) SetWriteDeadline(t time.Time) error { return nil }
+//go:norace
+func (c *Conn) SetWriteDeadline(t time.Time) error {
+	defer c.quiet()()
+	h := c.out
+	h.mu.Lock()
+	defer h.mu.Unlock()
+	h.wdeadline = t
+	if h.wtimer != nil {
+		h.wtimer.Stop()
+		h.wtimer = nil
+	}
+	if !t.IsZero() && h.window > 0 {
+		d := time.Until(t)
+		if d <= 0 {
+			h.cond.Broadcast()
+		} else {
+			h.wtimer = time.AfterFunc(d, func() {
+				h.mu.Lock()
+				h.cond.Broadcast()
+				h.mu.Unlock()
+			})
+		}
+	}
+	return nil
+}
 
 var _ net.Conn = (*Conn)(nil)
 
